@@ -459,6 +459,20 @@ pub fn o_drain(a: &Analysis) -> Vec<Violation> {
                         ));
                     }
                 }
+                // a sender that was waiting in the channel before the drain began and was later released by a close /
+                // disconnect was never claimed and never withdrew itself: it was listed during the whole drain
+                for s in a.sends.iter() {
+                    let released = s.status == SendStatus::Failed && matches!(s.err, Some(E::Closed) | Some(E::ReceiveClosed));
+                    if released && s.reg.map_or(false, |t| t < r.inv) && s.ret > r.ret && !a.recv_by_id.contains_key(&s.id) {
+                        out.push(v(
+                            format!("drain/missed@{}", s.kind),
+                            format!(
+                                "id {} ({}) was waiting in the channel before drain_into began and was still waiting after it had returned (it was released with {:?} later): the drain left a blocked sender behind",
+                                s.id, s.kind, s.err
+                            ),
+                        ));
+                    }
+                }
             }
             _ => {}
         }
